@@ -179,11 +179,12 @@ impl GenerationPass for AvailableValuePass {
                     out_reg_n -= Register::return_addr_set().iter();
                 }
                 // An environment call overwrites its result registers. If the
-                // call number is not known, any call may be meant, and all of
-                // them return their results in a0 and a1.
+                // call number is not known, or is one the table does not list
+                // (the input dialogs 51-53 among them), any call may be meant,
+                // and all of them return their results in a0 and a1.
                 if let Some((_, rets)) = node.known_ecall_signature() {
                     out_reg_n -= rets.iter();
-                } else if node.is_ecall() && node.known_ecall().is_none() {
+                } else if node.is_ecall() {
                     out_reg_n -= [Register::X10, Register::X11].into_iter();
                 }
                 if let Some((reg, reg_value)) = node.gen_reg_value() {
@@ -463,7 +464,7 @@ fn rule_forget_overwritten_registers(
     }
     if let Some((_, rets)) = node.known_ecall_signature() {
         overwritten |= rets;
-    } else if node.is_ecall() && node.known_ecall().is_none() {
+    } else if node.is_ecall() {
         overwritten |= Register::X10;
         overwritten |= Register::X11;
     }
